@@ -12,6 +12,7 @@ mod lm;
 mod ft;
 mod pipe;
 mod mrg;
+mod flt;
 
 pub use rng::Rng;
 
@@ -33,6 +34,7 @@ fn area(name: &str) -> Box<dyn Area> {
         "ft" => Box::new(ft::Ft),
         "pipe" => Box::new(pipe::Pipe),
         "mrg" => Box::new(mrg::Mrg),
+        "flt" => Box::new(flt::Flt),
         _ => {
             eprintln!("unknown area {}", name);
             std::process::exit(2)
